@@ -178,6 +178,57 @@ theorem splitLines_docBytes (lead : Nat) (bs : List Block) (last : Option (List 
       rw [splitLines_joinLines _ l (fun x hx => hclean x (List.mem_append_left _ hx))]
       rw [splitLines_last l (hclean l (by simp)).1 hl]
 
+/-! ### the call results on a document, and the distroless loop -/
+
+def blockEvents (b : Block) : List Ev := ⟨hdrOf b.fields, .ok⟩ :: List.replicate b.gap ⟨[], .ok⟩
+
+def lastEvents : Option (List Field) → List Ev
+  | none => [⟨[], .eof⟩]
+  | some fs => [⟨hdrOf fs, .eof⟩]
+
+theorem callsFrom_blocks (bs : List Block) (last : Option (List Field))
+    (hb : ∀ b ∈ bs, b.fields ≠ [] ∧ ∀ f ∈ b.fields, f.WF)
+    (hw : ∀ fs, last = some fs → fs ≠ [] ∧ ∀ f ∈ fs, f.WF) :
+    callsFrom .start (bs.flatMap Block.lines ++ lastLines last) = bs.flatMap blockEvents ++ lastEvents last := by
+  induction bs with
+  | nil =>
+    cases last with
+    | none => simp [lastLines, lastEvents, callsFrom, finishRd]
+    | some fs => simpa [lastLines, lastEvents] using callsFrom_last_stanza fs (hw fs rfl).2
+  | cons b bs ih =>
+    obtain ⟨_, hwf⟩ := hb b (by simp)
+    simp only [List.flatMap_cons, Block.lines, List.append_assoc]
+    rw [← List.append_assoc (fieldsLines b.fields), callsFrom_stanza b.fields hwf,
+      ih (fun x hx => hb x (List.mem_cons_of_mem _ hx))]
+    simp [blockEvents]
+
+/-- The results of the successive `ReadMIMEHeader` calls on a document: one
+    call per stanza (its header, nil error), one empty header per extra empty
+    line, and the last call reports `io.EOF` (with the last stanza's header
+    when nothing follows it). -/
+theorem callsFrom_docLines (lead : Nat) (bs : List Block) (last : Option (List Field))
+    (hb : ∀ b ∈ bs, b.fields ≠ [] ∧ ∀ f ∈ b.fields, f.WF)
+    (hw : ∀ fs, last = some fs → fs ≠ [] ∧ ∀ f ∈ fs, f.WF) :
+    callsFrom .start (docLines lead bs last) =
+      List.replicate lead ⟨[], .ok⟩ ++ (bs.flatMap blockEvents ++ lastEvents last) := by
+  rw [docLines.eq_def, callsFrom_blanks, callsFrom_blocks bs last hb hw]
+
+theorem distrolessEvents_blocks (bs : List Block) (last : Option (List Field))
+    (hb : ∀ b ∈ bs, b.fields ≠ [] ∧ b.gap = 0)
+    (hw : ∀ fs, last = some fs → fs ≠ []) :
+    distrolessEvents (bs.flatMap blockEvents ++ lastEvents last) = (docHdrs bs last).map distrolessPkg := by
+  induction bs with
+  | nil =>
+    cases last with
+    | none => simp [lastEvents, distrolessEvents, docHdrs, lastHdrs]
+    | some fs => simp [lastEvents, distrolessEvents, docHdrs, lastHdrs, hdrOf_ne_nil (hw fs rfl)]
+  | cons b bs ih =>
+    obtain ⟨hne, hg⟩ := hb b (by simp)
+    have ih' := ih (fun x hx => hb x (List.mem_cons_of_mem _ hx))
+    simp only [List.flatMap_cons, blockEvents, hg, List.replicate_zero, List.cons_append, List.nil_append,
+      distrolessEvents, hdrOf_ne_nil hne, Bool.false_eq_true, if_false, ih']
+    simp [docHdrs]
+
 /-! ### ground truth -/
 
 /-- What a status stanza states. `src`: the `Source` field, `name` or `name (version)`. -/
